@@ -543,6 +543,13 @@ func (f *FCFG) PathAvoidingEdges(target, barrier func(ast.Node) bool, edgeOK fun
 		if len(b.Nodes) > 0 {
 			trail = append(trail, b.Nodes[len(b.Nodes)-1])
 		}
+		if len(b.Succs) == 0 {
+			if target == nil {
+				return true // a function exit is reached
+			}
+			trail = trail[:mark]
+			return false
+		}
 		cond := f.condOf(b)
 		for i, s := range b.Succs {
 			if cond != nil && edgeOK != nil && !edgeOK(cond, i == 0) {
